@@ -2040,63 +2040,6 @@ fn u3_colorsequence() {
     std::mem::forget(v1);
 }
 
-//@ obligation: U3.Sequence.wire
-//@ cost: heavy
-//@ tier: thorough
-//@ props: C04 C13
-//@ fns: decode_prop_chunk[Type::NumberSequence/VariantType::NumberSequence] decode_prop_chunk[Type::ColorSequence/VariantType::ColorSequence]
-//@ kind: bounded
-//@ bound: column of 2 sequences with 1 and 0 keypoints (counts fixed, floats symbolic incl. a non-zero ColorSequence envelope); wire truncated at any length
-//@ checks: functional
-//@ covers: 2
-//@ timeout: 2400
-//@ note: complete input decodes to the values an independent reader gets (a foreign writer may store any envelope in a ColorSequence keypoint: it is ignored); no truncation makes the arms panic
-#[kani::proof]
-#[kani::unwind(6)]
-#[kani::stub(alloc::fmt::format, crate::chunk::__verif::fmt_stub)]
-fn u3_sequence_wire() {
-    // NumberSequence: [count 1][time value envelope][count 0]
-    let f: [u8; 12] = kani::any();
-    let mut w = [0u8; 20];
-    w[0] = 1;
-    w[4..16].copy_from_slice(&f);
-    let n: usize = kani::any();
-    kani::assume(n <= 20);
-    let mut shim = shim2();
-    let r = dec_NumberSequence_NumberSequence(&w[..n], &TI2, &mut shim);
-    if n == 20 {
-        assert!(r.is_ok());
-        let mut d = De::new(&w);
-        d.pos = 4;
-        let (t, v, e) = (d.le_f32(), d.le_f32(), d.le_f32());
-        assert!(out!(shim, 0, Variant::NumberSequence(x) => x.keypoints.len() == 1 && feq(x.keypoints[0].time, t) && feq(x.keypoints[0].value, v) && feq(x.keypoints[0].envelope, e)));
-        assert!(out!(shim, 1, Variant::NumberSequence(x) => x.keypoints.is_empty()));
-        assert!(once_each(&shim));
-    }
-    // ColorSequence: [count 1][time r g b envelope][count 0]
-    let g: [u8; 20] = kani::any();
-    let mut c = [0u8; 28];
-    c[0] = 1;
-    c[4..24].copy_from_slice(&g);
-    let m: usize = kani::any();
-    kani::assume(m <= 28);
-    let mut shimc = shim2();
-    let rc = dec_ColorSequence_ColorSequence(&c[..m], &TI2, &mut shimc);
-    if m == 28 {
-        assert!(rc.is_ok());
-        let mut d = De::new(&c);
-        d.pos = 4;
-        let (t, cr, cg, cb) = (d.le_f32(), d.le_f32(), d.le_f32(), d.le_f32());
-        assert!(out!(shimc, 0, Variant::ColorSequence(x) => x.keypoints.len() == 1 && feq(x.keypoints[0].time, t) && feq(x.keypoints[0].color.r, cr) && feq(x.keypoints[0].color.g, cg) && feq(x.keypoints[0].color.b, cb)));
-        assert!(out!(shimc, 1, Variant::ColorSequence(x) => x.keypoints.is_empty()));
-        assert!(once_each(&shimc));
-    }
-    kani::cover!(n == 20 && m == 28, "complete input reached");
-    kani::cover!(n == 0, "truncated input reached");
-    std::mem::forget(shim);
-    std::mem::forget(shimc);
-}
-
 // ---------------------------------------------------------------- Font (bounded)
 //@ obligation: U3.Font
 //@ cost: heavy
